@@ -206,7 +206,9 @@ class SubResult:
         self.samples = []
 
 
-def correspond(binary, sub, seed, n, tier, workdir, replay=None, extra=None, driver_sub=None):
+def correspond(binary, sub, seed, n, tier, workdir, replay=None, extra=None, driver_sub=None, signatures=None, project=None):
+    """signatures: optional list of oracle-signature prefixes that belong to the property being checked;
+    failures of other oracles of a shared sub-harness are left to the checks of their own properties."""
     os.makedirs(workdir, exist_ok=True)
     cases_path = os.path.join(workdir, f"{sub}-{seed}.tsv")
     run_harness(binary, sub, seed, n, tier, cases_path, replay=replay, extra=extra)
@@ -223,11 +225,18 @@ def correspond(binary, sub, seed, n, tier, workdir, replay=None, extra=None, dri
         if "trivial" not in tl:
             res.distinct_nontrivial.add(hashlib.md5(scn.encode()).digest() if not scn.startswith("#") else hashlib.md5((scn + obs).encode()).digest())
         if i in model and model[i] != obs:
-            res.mismatches.append((scn, obs, model[i]))
+            # a shared sub-harness observes more than one property: compare the part this property speaks about
+            if project is None or project(model[i]) != project(obs):
+                res.mismatches.append((scn, obs, model[i]))
         if oracle != "ok":
-            parts = oracle.split(" ", 2)
-            sig = parts[1] if len(parts) > 1 else "unknown"
-            res.oracle_fails.append((scn, obs, sig, parts[2] if len(parts) > 2 else ""))
+            for one in oracle.split(" ;; "):
+                parts = one.split(" ", 2)
+                if not parts or parts[0] != "FAIL":
+                    continue
+                sig = parts[1] if len(parts) > 1 else "unknown"
+                if signatures is not None and not any(sig.startswith(pref) for pref in signatures):
+                    continue
+                res.oracle_fails.append((scn, obs, sig, parts[2] if len(parts) > 2 else ""))
         if len(res.samples) < 4 and "trivial" not in tl and i % max(1, len(cases) // 4) == 0:
             res.samples.append({"scenario": scn[:600], "implementation": obs[:600], "model": model.get(i, "(not modelled)")[:600], "oracle": oracle[:200]})
     try:
